@@ -442,7 +442,7 @@ def _select_many(args):
 # ----------------------------------------------------------------------------------------------
 # validation
 # ----------------------------------------------------------------------------------------------
-def validate(ctx, records, tag, chunk_sel=3000, chunk_rel=40):
+def validate(ctx, records, tag, chunk_sel=4000, chunk_rel=100):
     import concurrent.futures as cf
 
     for n, r in enumerate(records):
@@ -484,8 +484,8 @@ def bounds_for(quick):
                 "every_sub_size_map_up_to_cells": 4, "sub_size_patterns": list(range(1, 11)),
                 "relocation_border_lattice_side": 3, "relocation_max_border_points": 3, "relocation_point_lattice": [-2, 4],
                 "random_selection_masks": 150, "random_relocation_masks": 90, "random_relocation_max_side": 7}
-    return {"selection_exhaustive_masks_up_to_cells": 10, "selection_extra_shapes": [(3, 4), (4, 3), (2, 6), (6, 2)],
-            "every_sub_size_map_up_to_cells": 6, "sub_size_patterns": list(range(1, 11)),
+    return {"selection_exhaustive_masks_up_to_cells": 10, "selection_extra_shapes": [(3, 4), (4, 3)],
+            "every_sub_size_map_up_to_cells": 5, "sub_size_patterns": list(range(1, 11)),
             "relocation_border_lattice_side": 4, "relocation_max_border_points": 3, "relocation_point_lattice": [-3, 6],
             "random_selection_masks": 1500, "random_relocation_masks": 900, "random_relocation_max_side": 9}
 
